@@ -390,6 +390,26 @@ def _prepare_bounds(tree, fn, positive):
     return fn
 
 
+_ENTRY = {'all_pix2world': 1, 'wcs_pix2world': 2, 'all_world2pix': 1, 'wcs_world2pix': 2}
+
+
+def _wcs_entry(fn):
+    """which astropy entry point a WCSHelper conversion calls on `self.wcs`, as a code (1 = the `all_` transform including
+    SIP / distortion tables, 2 = the core-only `wcs_` transform), and the `origin` argument; exactly one such call or refuse"""
+    calls = [n for n in ast.walk(fn) if isinstance(n, ast.Call) and isinstance(n.func, ast.Attribute)
+             and isinstance(n.func.value, ast.Attribute) and n.func.value.attr == 'wcs'
+             and isinstance(n.func.value.value, ast.Name) and n.func.value.value.id == 'self']
+    if len(calls) != 1 or calls[0].func.attr not in _ENTRY or len(calls[0].args) < 2 \
+            or not (isinstance(calls[0].args[1], ast.Constant) and isinstance(calls[0].args[1].value, int)
+                    and not isinstance(calls[0].args[1].value, bool) and calls[0].args[1].value >= 0):
+        raise py2lean.Untranslatable(f'{fn.name}: not exactly one recognised self.wcs.<transform>(points, <origin>) call')
+    body = [ast.Assign(targets=[ast.Name(id='entry', ctx=ast.Store())], value=ast.Constant(value=_ENTRY[calls[0].func.attr]), lineno=1),
+            ast.Assign(targets=[ast.Name(id='origin', ctx=ast.Store())], value=ast.Constant(value=calls[0].args[1].value), lineno=1)]
+    new = ast.FunctionDef(name=fn.name, args=fn.args, body=body, decorator_list=[], lineno=1)
+    ast.fix_missing_locations(new)
+    return new
+
+
 def _wrap_find(orig):
     def find_function(tree, qualname):
         if qualname == '<module>':
@@ -401,6 +421,8 @@ def _wrap_find(orig):
         fn = orig(tree, base)
         if tag in ('c01bpos', 'c01bneg'):
             return _prepare_bounds(tree, fn, tag == 'c01bpos')
+        if tag == 'c01entry':
+            return _wcs_entry(fn)
         if True:
             fn = copy.deepcopy(fn)
             if tag.endswith('pos') or tag.endswith('neg'):
@@ -519,7 +541,16 @@ def _mk_padd():
     return out
 
 
-TARGETS = _mk_bounds() + _mk_padd() + [
+def _mk_entry():
+    out = []
+    for meth, pre in (('pix2sky', 'pix2sky'), ('sky2pix', 'sky2pix')):
+        for var, suf in (('entry', 'Entry'), ('origin', 'Origin')):
+            out.append(dict(file='AegeanTools/wcs_helpers.py', func=f'WCSHelper.{meth}#c01entry', mode='int', params={},
+                            outputs=[(var, pre + suf)], fallback={pre + suf: f'def {pre + suf} : Nat := 1'}))
+    return out
+
+
+TARGETS = _mk_bounds() + _mk_padd() + _mk_entry() + [
     dict(file='AegeanTools/fitting.py', func='elliptical_gaussian', mode='real',
          params={p: 'A' for p in _G}, subst={}, outputs=[], returns='gauss',
          fallback={'gauss': _fb('gauss', _G)}, all_params=_G),
